@@ -22,6 +22,10 @@ PROPS = {
     "C01": {"rule": PDU_RULE + "; op rt = Marshal then ReadPDU under a chunking, oracle compares every field",
             "level_text": "Round trip proved in Lean for every layout passing LayoutOK (decided on the regenerated 33 layouts), every representable value of unbounded size and every fragmentation (C01_roundtrip_partial, C01_fields_equal); the full-strength statement is refuted by a proved witness for the one known finding (QuerySMResp.ErrorCode).",
             "level_note": PDU_NOTE + " Partial: fields the reflection walk skips must be zero (known finding C01-queryresp-errorcode)."},
+    "C02": {"rule": PDU_RULE + "; op spec: the Go side prints Marshal's frame, the Lean side prints the frame its INDEPENDENT SMPP v5 table (Spec/SmppV5Layout.lean) prescribes; a differing line is a deviation from the specification; the Go side also decodes the frame and compares with the values laid out; 15% of the values lie just outside what the length fields can state",
+            "diff_violation_ops": {"spec": "C02:marshal-differs-from-spec-frame"},
+            "level_text": "The regenerated Go layouts equal an independent transcription of SMPP v5 §4.1-4.6 (names, order, kinds; decide), the model's octets equal the specification encoder's for every representable value (C02_encode, by induction over fields), and a value whose lengths cannot be stated makes Marshal fail (C02_unrepresentable); the converse direction follows with C01.",
+            "level_note": PDU_NOTE + " The specification table is my transcription of docs/SMPP_v5.pdf (DESIGN.md Appendix D). Known finding: query_sm_resp.error_code."},
     "C03": {"level_text": "Fragmentation independence of one and of repeated ReadPDU calls, exact consumption for every acceptable header (decodable, undecodable or unknown id), in-order delivery then EOF for any frame sequence, and error on every truncation inside a PDU are Lean theorems over arbitrary chunk lists.",
             "level_note": PDU_NOTE + " The io.Reader is modelled as a list of chunks (a Read returns at most the head chunk); that io.ReadFull/binary.Read behave as the loop over Read is trusted and checked by the correspondence run under every chunking kind.",
             "rule": PDU_RULE + "; op stream = repeated ReadPDU over concatenated valid frames, truncations at random and at every cut of short streams, every single split point and uniform size 1..32"},
@@ -31,5 +35,7 @@ PROPS = {
     "C12": {"level_text": "For every layout and every value with no domain restriction: Marshal's model never reaches the panic outcome, success writes exactly one frame whose first four octets state its size, failure writes nothing (Lean theorems); single write site and guards are regenerated facts.",
             "level_note": PDU_NOTE,
             "rule": PDU_RULE + "; unconstrained domain: sequence over the int32 range incl. 0/-1/min, any status, containers 254-300, TLV 65534-65536, UDH element 250-300, message 141-300; destination writer counts Write calls"},
-    "C13": {"claimed": False, "rule": "reenc = ReadPDU -> Marshal -> ReadPDU -> Marshal x8 on valid and mutated frames of every type; det = 16 re-marshals of values with 2..50 TLVs after rebuilding the maps"},
+    "C13": {"level_text": "Determinism over Go's map iteration order is proved for all maps (any permutation of the entries sorts to the same key list: C13_deterministic_tags/_udh); stability is proved in the form: what Marshal wrote decodes, under any fragmentation, to the value Marshal left with empty TLVs dropped (C13_redecode_partial). The second re-encoding being byte-identical, and decoder output being well-formed, are checked differentially only (reenc op), not yet mechanised.",
+            "level_note": PDU_NOTE + " Partial as stated in level_text.",
+            "rule": "reenc = ReadPDU -> Marshal -> ReadPDU -> Marshal x8 on valid and mutated frames of every type; det = 16 re-marshals of values with 2..50 TLVs after rebuilding the maps"},
 }
